@@ -44,6 +44,19 @@ func freshDecls() []fresh {
 		{"method", func() []*doc.Node {
 			return []*doc.Node{doc.N("GET", "/freshpath/x").WithParen().WithKids(doc.N("200", "any"))}
 		}, []string{"interactions/http GET /freshpath/x", "tags/@freshpath"}},
+		// a method on an unrelated path whose parameters have the names other paths use too
+		{"method-with-path-parameters", func() []*doc.Node {
+			return []*doc.Node{doc.N("GET", "/freshp/{id}/{a}").WithParen().WithKids(
+				doc.N("Path").WithBody("{\n  \"id\": 77, // fresh id\n  \"a\": \"fresh\"\n}"), doc.N("200", "any"))}
+		}, []string{"interactions/http GET /freshp/{id}/{a}", "tags/@freshp"}},
+		{"method-with-path-parameter-id", func() []*doc.Node {
+			return []*doc.Node{doc.N("GET", "/freshq/{id}").WithParen().WithKids(
+				doc.N("Path").WithBody("{\n  \"id\": 78 // another fresh id\n}"), doc.N("200", "any"))}
+		}, []string{"interactions/http GET /freshq/{id}", "tags/@freshq"}},
+		{"method-with-path-parameters-a-b", func() []*doc.Node {
+			return []*doc.Node{doc.N("GET", "/freshr/{a}/{b}").WithParen().WithKids(
+				doc.N("Path").WithBody("{\n  \"a\": \"fa\",\n  \"b\": \"fb\"\n}"), doc.N("200", "any"))}
+		}, []string{"interactions/http GET /freshr/{a}/{b}", "tags/@freshr"}},
 		{"url", func() []*doc.Node {
 			return []*doc.Node{doc.N("URL", "/freshurl").WithParen().WithKids(doc.N("POST").WithKids(doc.N("Request", "any"), doc.N("201", "empty")))}
 		}, []string{"interactions/http POST /freshurl", "tags/@freshurl"}},
@@ -330,6 +343,8 @@ func ownedBy(b doc.Block, entry string) bool {
 			return true
 		case strings.HasPrefix(d, "server:") && entry == "servers/"+strings.TrimPrefix(d, "server:"):
 			return true
+		case strings.HasPrefix(d, "tagentry:") && entry == "tags/"+strings.TrimPrefix(d, "tagentry:"):
+			return true // the automatic tag of a first segment that needs escaping
 		case d == "info" && strings.HasPrefix(entry, "top/info"):
 			return true
 		case strings.HasPrefix(d, "path:"):
